@@ -125,7 +125,10 @@ def runCase (s : St) : String :=
     -- … and its conclusions, evaluated (an instance of the theorem: must hold whenever the premises do)
     let hiB := max o.root.totalBytes n.root.totalBytes
     let concl := traceAdmissible [] (ch.main ++ ch.post) && hGrow && hTile && ch.ranges.all (fun r => decide (r.end_byte ≤ hiB))
-    s!"{s.id} corr={corr} corrF={if corrF == "ok" then "ok" else "DIFF"} corrA={if corrA == "ok" then "ok" else "DIFF"} corrmsg={corrF} judge={j} cause={cause} mono={mono} msound={ms} cov={cov} prem={prem} concl={if concl then "ok" else "bad"} nr={s.reported.length} diffbytes={v.diffBytes} uncov={v.uncovered} uncovtok={v.uncoveredInToken} uncovlist={v.uncoveredBytes} same={v.coveredSame} rchg={rchg} calls={ch.main.length + ch.post.length} matched={ch.matched.length}{fixmsg}"
+      && ch.ranges.all (fun r => decide (r.start_byte < r.end_byte))
+    -- not a theorem (OPEN): the walk reaches the end of the shorter tree
+    let reach := decide (spansEnd (loopStart o.root n.root) ch.spans ≥ min o.root.totalBytes n.root.totalBytes)
+    s!"{s.id} corr={corr} corrF={if corrF == "ok" then "ok" else "DIFF"} corrA={if corrA == "ok" then "ok" else "DIFF"} corrmsg={corrF} judge={j} cause={cause} mono={mono} msound={ms} cov={cov} prem={prem} concl={if concl then "ok" else "bad"} reach={if reach then 1 else 0} nr={s.reported.length} diffbytes={v.diffBytes} uncov={v.uncovered} uncovtok={v.uncoveredInToken} uncovlist={v.uncoveredBytes} same={v.coveredSame} rchg={rchg} calls={ch.main.length + ch.post.length} matched={ch.matched.length}{fixmsg}"
   | _, _, _ => s!"{s.id} corr=BADINPUT judge=BADINPUT"
 
 def step (s : St) (line : String) : IO St := do
